@@ -44,6 +44,14 @@ ASSUMPTIONS = [
     "replies 'J<HH>' backward frame, 'N' no answer, 'X'/'Z' collision/bus error",
     "UniPi: two Modbus registers; 16 bit: [(2|twice 8)<<8, addr<<8|cmd]; 24 bit: [((3|twice 8)<<8)|b0, b1<<8|b2]; "
     "received [0x100, v] backward frame, [0x200, w] 16-bit forward frame",
+    "UniPi register numbers (UNIPI_REGS): per DALI channel a receive triple [counter, type, data] and a send pair "
+    "[options/length, data]; transcribed from the driver's constants (receive 1+3*bus, send 13+2*bus, framing-error counter "
+    "38+bus//2), written out as a table for channels 0..3 - the receive triples of four channels end at register 12, "
+    "directly in front of the first send pair at 13, which is why four channels are taken as 'every bus the driver "
+    "supports'; the vendor's register map is not in the sandbox, so the absolute numbers only detect changes; what the "
+    "table adds on its own is that no register belongs to two channels' send or receive blocks and that every block has "
+    "the size the driver transfers (3 read, 2 written); that two channels share one framing-error register is the "
+    "driver's reading and is not judged beyond 'the counter of the other pair of channels is not this channel's'",
     "deframers: a dropped LUBA frame (bad checksum, unknown command) is consumed as a whole, i.e. scanning for 'Y' does not "
     "restart inside its payload; an impossible length byte ends the frame right after the length byte; the longest LUBA "
     "frame a receiver must take is 24 bytes in all (payload 20, the device-info reply); SCI has no sync byte: every five "
@@ -479,6 +487,52 @@ def unipi_encode(bits, value, twice):
         return ((0x2 | (0x8 if twice else 0)) << 8, (b[0] << 8) | b[1])
     if bits == 24:
         return (((0x3 | (0x8 if twice else 0)) << 8) | b[0], (b[1] << 8) | b[2])
+    return None
+
+
+# register numbers per DALI channel ("bus"): receive triple, send pair, framing-error counter
+UNIPI_REGS = {
+    0: {"recv": (1, 2, 3), "send": (13, 14), "fe": 38},
+    1: {"recv": (4, 5, 6), "send": (15, 16), "fe": 38},
+    2: {"recv": (7, 8, 9), "send": (17, 18), "fe": 39},
+    3: {"recv": (10, 11, 12), "send": (19, 20), "fe": 39},
+}
+
+
+def _unipi_table_check():
+    seen = {}
+    for bus, r in UNIPI_REGS.items():
+        assert len(r["recv"]) == 3 and len(r["send"]) == 2
+        for blk in ("recv", "send"):
+            regs = r[blk]
+            assert list(regs) == list(range(regs[0], regs[0] + len(regs)))
+            for x in regs:
+                assert x not in seen, (x, bus, seen[x])
+                seen[x] = (bus, blk)
+        assert r["fe"] not in seen
+
+
+_unipi_table_check()
+
+
+def unipi_bus_of_send_register(reg):
+    """Channel whose send pair STARTS at this register, else None."""
+    for bus, r in UNIPI_REGS.items():
+        if r["send"][0] == reg:
+            return bus
+    return None
+
+
+def unipi_decode_send(regs):
+    """(bits, value, twice) denoted by a written send pair, or None."""
+    if len(regs) != 2:
+        return None
+    opt, b0 = regs[0] >> 8, regs[0] & 0xFF
+    twice = bool(opt & 0x8)
+    if opt & 0x7 == 0x2 and b0 == 0:
+        return (16, regs[1] & 0xFFFF, twice)
+    if opt & 0x7 == 0x3:
+        return (24, (b0 << 16) | (regs[1] & 0xFFFF), twice)
     return None
 
 
